@@ -32,6 +32,7 @@ RULE = ("Each run: a seeded history of 6-40 top-level operations on 1-2 "
         "repeats): return None/True/False/EventHalt/EventRemove/"
         "EventHaltAndRemove/()/EventContinue or raise, optionally after a "
         "re-entrant subscribe / unsubscribe / raise (nesting <= maxdepth). "
+        "30% of the runs use no priorities at all (lists never re-sorted). "
         "A run is non-trivial when it had >= 2 deliveries and >= 3 handler "
         "invocations; distinct = distinct digest of the operation/"
         "invocation log.")
@@ -52,8 +53,13 @@ ASSUMPTIONS = [
   "unsubscribe operations only name subscriptions that exist or existed on "
   "that source (removing from a type that never had a listener is not "
   "exercised); clearHandlers is not exercised",
-  "non-termination is decided by a deterministic invocation budget per "
-  "delivery: 4*(handlers at raise + non-sticky subscribes available) + 8",
+  "non-termination is decided deterministically per delivery: more than "
+  "4*(handlers at raise + handlers subscribed during this delivery) + 8 "
+  "invocations (hard cap 2000), or a handler whose sticky script "
+  "subscribes a fresh listener on every invocation being re-invoked 8 "
+  "times in a row directly after doing so (the loop feeds itself and the "
+  "script never changes, so it cannot end); a double invocation that "
+  "precedes it is reported as its own class when the delivery does end",
   "to tell which of two accepted states the implementation is in after a "
   "handler exception in plain raiseEvent, the harness reads "
   "_eventMixin_handlers (read-only)",
